@@ -220,6 +220,41 @@ func texts(r *ev.Run) {
 			}
 		}
 	}
+	// the marshalled text belongs to the caller: appending to it or overwriting it must not change
+	// what any later call returns (for Level and AtomicLevel, text and JSON)
+	for round := 0; round < 3; round++ {
+		for v := -1; v <= 5; v++ {
+			l := zapcore.Level(v)
+			id := fmt.Sprintf("c20/text-ownership/%d/%d", round, v)
+			if !r.Want(id) {
+				continue
+			}
+			a := zap.NewAtomicLevelAt(l)
+			for _, get := range []func() []byte{
+				func() []byte { b, _ := l.MarshalText(); return b },
+				func() []byte { b, _ := a.MarshalText(); return b },
+				func() []byte { b, _ := json.Marshal(l); return b },
+			} {
+				t := get()
+				t = append(t, ';', ';', ';', ';', ';', ';', ';', ';') // grow in place if there is spare capacity
+				for k := range t {
+					t[k] = '#'
+				}
+			}
+			r.Eval(1)
+			r.Distinct("ownership|" + id)
+			for w := -1; w <= 5; w++ {
+				lw := zapcore.Level(w)
+				mt, _ := lw.MarshalText()
+				jb, _ := json.Marshal(lw)
+				at, _ := zap.NewAtomicLevelAt(lw).MarshalText()
+				if string(mt) != gen.LevelName(lw) || string(at) != gen.LevelName(lw) || string(jb) != `"`+gen.LevelName(lw)+`"` {
+					r.Violate(ev.Violation{Case: id, Class: "roundtrip", Msg: fmt.Sprintf("after a caller modified the slice an earlier MarshalText/Marshal of level %v returned (appending to it and overwriting it), level %v now marshals as text %q / AtomicLevel %q / JSON %s", l, lw, mt, at, jb)})
+					w = 6
+				}
+			}
+		}
+	}
 	g := rng.For(r.Seed, "c20/mix", 0)
 	for name := range names {
 		for i, m := range caseMixes(name, g, 128) {
